@@ -125,3 +125,17 @@ package interpreter
 //@ schema bitop_big(T=UInt256Value, N=UInt256, bits=256, signed=false, min=0, max=pow2(256)-1)
 //@ schema bitop_big(T=Word128Value, N=Word128, bits=128, signed=false, min=0, max=pow2(128)-1)
 //@ schema bitop_big(T=Word256Value, N=Word256, bits=256, signed=false, min=0, max=pow2(256)-1)
+
+// ---- bitwise operators and shifts of Int / UInt (C14, C32)
+//@ spec L_uint_tc(x, y) = x >= 0 && y >= 0 ==> tcand(x, y) >= 0 && tcor(x, y) >= 0 && tcxor(x, y) >= 0
+//@ spec L_uint_sh(x, n) = x >= 0 && n >= 0 ==> shl(x, n) >= 0 && shr(x, n) >= 0
+//@ schema bitop_unbounded(T=IntValue, M=BitwiseOr, F=tcor, LEM=true)
+//@ schema bitop_unbounded(T=IntValue, M=BitwiseXor, F=tcxor, LEM=true)
+//@ schema bitop_unbounded(T=IntValue, M=BitwiseAnd, F=tcand, LEM=true)
+//@ schema shift_unbounded(T=IntValue, M=BitwiseLeftShift, F=shl, LEM=true)
+//@ schema shift_unbounded(T=IntValue, M=BitwiseRightShift, F=shr, LEM=true)
+//@ schema bitop_unbounded(T=UIntValue, M=BitwiseOr, F=tcor, LEM=L_uint_tc(num(v), num(other.(UIntValue))))
+//@ schema bitop_unbounded(T=UIntValue, M=BitwiseXor, F=tcxor, LEM=L_uint_tc(num(v), num(other.(UIntValue))))
+//@ schema bitop_unbounded(T=UIntValue, M=BitwiseAnd, F=tcand, LEM=L_uint_tc(num(v), num(other.(UIntValue))))
+//@ schema shift_unbounded(T=UIntValue, M=BitwiseLeftShift, F=shl, LEM=L_uint_sh(num(v), num(other.(UIntValue))))
+//@ schema shift_unbounded(T=UIntValue, M=BitwiseRightShift, F=shr, LEM=L_uint_sh(num(v), num(other.(UIntValue))))
